@@ -74,9 +74,9 @@ theorem expr_eval_correct_partial (cst : Bool) (K : Nat) (t : Ty) (i : Nat) (e :
     · -- mpz tree into an mpz target
       simp only [execAssign, hty, if_true]
       have H := evalZ_correct cst e hty hwt K (.v i) h (by simpa [ZLoc.below] using hi) hz
-      rw [evalTmp_z _ e hty]
-      show match (evalTmpZ (fun i => h (.v i)) e).map Val.z with | none => _ | some v => _
-      cases hr : evalTmpZ (fun i => h (.v i)) e with
+      rw [evalTmp_z h e hty hc]
+      show match (evalTmpZ h.get e).map Val.z with | none => _ | some v => _
+      cases hr : evalTmpZ h.get e with
       | none => rw [hr] at H; simpa [Post] using H
       | some x =>
         rw [hr] at H
@@ -171,9 +171,9 @@ example : (execAssign true 4 .z 1 (.bin .mul (.qv 0) (.qv 0))
 
 /-! ### comparisons, `cmp`, `sgn` -/
 
-theorem Opnd.zOk_of_ok {K : Nat} {h : Heap} {a : Opnd} (ha : a.ok K h) (hz : a.isZ = true) : a.zOk K := by
+theorem Opnd.zOk_of_ok {K : Nat} {h : Heap} {a : Opnd} (ha : a.ok K h) (hz : a.isZ = true) : a.zOk K h := by
   cases a with
-  | ex e => exact ⟨by simpa [Opnd.isZ] using hz, ha.1, ha.2.1⟩
+  | ex e => exact ⟨by simpa [Opnd.isZ] using hz, ha.1, ha.2.1, ha.2.2.2⟩
   | bi c => exact ha
 
 /-- **Comparisons equal the C comparison of the temporaries** (`== != < <= > >=`, `cmp`; `_partial`: mpz and mpq
